@@ -406,6 +406,8 @@ static Plan make_plan(const std::string& prop, uint64_t root, uint64_t idx, bool
     if (!ce.ref.empty() && g.below(3) == 0) { p.ref = g.below(5) == 0 ? ce.wasm : ce.ref; p.changed = ce.changed; }
     // the pinned "abyss" module (150000 nesting levels) runs with default options: pretty printing would emit output quadratic in the depth
     if (ce.wasm.size() >= 9 && ce.wasm.compare(ce.wasm.size() - 9, 9, "m905.wasm") == 0) p.args.clear();
+    // m906 (2500 and 5000 levels): no pretty printing for the same reason
+    if (ce.wasm.size() >= 9 && ce.wasm.compare(ce.wasm.size() - 9, 9, "m906.wasm") == 0) { std::vector<std::vector<std::string>> a2; for (auto& a : p.args) if (a[0] != "-p") a2.push_back(a); p.args = a2; }
     if (prop == "C20" ? g.below(2) == 0 : g.below(5) == 0) p.args.push_back({"-c"});
     p.shape = (int)g.below(prop == "C20" ? 16 : 11);
     if (prop != "C20" && p.shape == 5) p.shape = 7;   // an output named like an implementation file collides with it: only meaningful for C20
@@ -644,6 +646,8 @@ static std::string san_site(const std::string& err) {
 }
 static void crash_oracle(const Plan& p, const RunOut& o, const std::string& P, Verdict& v, bool truncated) {
     std::string ctx = truncated ? "truncated" : "valid";
+    // the pinned 150000-level module reproduces a recorded finding; its signature names the input so that no other module's overflow hides behind it
+    if (p.module.size() >= 9 && p.module.compare(p.module.size() - 9, 9, "m905.wasm") == 0) ctx += ":pinned-input-m905-150000-nested-blocks";
     if (o.sig == SIGALRM) { v.set(P + "/hang/wall-clock-watchdog:" + ctx, "child killed by the 30 s watchdog: " + plan_to_text(p, nullptr).substr(0, 300)); return; }
     if (o.sig) { v.set(P + "/signal/" + std::to_string(o.sig) + ":" + san_site(o.stderr_tail) + ":" + ctx, "child died with signal " + std::to_string(o.sig) + " stderr: " + o.stderr_tail.substr(0, 1500)); return; }
     if (o.exit_code == 77) {
